@@ -799,3 +799,134 @@ func ghost_buildStmts_afterProcessed(pools [][]*node, stmts, parentStmts []Injec
 	vs.Assert("hint_segments_after_bookkeeping", threadsSegments(pools, parentStmts))
 	vs.Assert("hint_goroutines_after_bookkeeping", threadsChains(pools, stmts))
 }
+
+// ---------------------------------------------------------------------------
+// C09 (acceptance direction): a reported cycle is a real one - a second, independent contract ("aspect" stack) of
+// the DFS, verified separately from the finish-time contract above so that neither proof carries the other's
+// invariants. Ghost: the DFS stack (the nodes in progress, in order), the depth of each node on it, the index of the
+// edge followed from each stack position to the next (the top position holds the edge currently examined), and
+// where on the stack a reported cycle starts.
+// ---------------------------------------------------------------------------
+
+var (
+	gStack     []*node
+	gDepthOf   map[*node]int
+	gVia       map[int]int
+	gCycleFrom int
+)
+
+//kvc:ghost (*Graph).dfsCycleDetection@stack after "colors[node] = gray"
+func ghostPush(node *node) {
+	gDepthOf[node] = len(gStack)
+	gStack = append(gStack, node)
+}
+
+//kvc:ghost (*Graph).dfsCycleDetection@stack before "if colors[neighbor] == gray"
+func ghostExamine(kvcIdx int) { gVia[len(gStack)-1] = kvcIdx }
+
+//kvc:ghost (*Graph).dfsCycleDetection@stack before "return g.buildCyclePath(neighbor, node, parent)"
+func ghostCycleStart(neighbor *node) { gCycleFrom = gDepthOf[neighbor] }
+
+//kvc:ghost (*Graph).dfsCycleDetection@stack after "colors[node] = black"
+func ghostPop() { gStack = gStack[:len(gStack)-1] }
+
+// followsEdge: edge number gVia[k] of the node at stack position k leads to target.
+func followsEdge(g *Graph, k int, target *node) bool {
+	return 0 <= gVia[k] && gVia[k] < len(g.edges[gStack[k]]) && g.edges[gStack[k]][gVia[k]].node == target
+}
+
+func stackNodesGray(colors map[*node]nodeColor) bool {
+	return vs.Forall(len(gStack), func(k int) bool { return vs.IsAllocated(gStack[k]) && colors[gStack[k]] == gray })
+}
+
+func grayOnStack(colors map[*node]nodeColor) bool {
+	return vs.ForallPtr(func(x *node) bool {
+		return vs.Implies(colors[x] == gray, 0 <= gDepthOf[x] && gDepthOf[x] < len(gStack) && gStack[gDepthOf[x]] == x)
+	})
+}
+
+// (two index variables with k2 == k+1 in the guard: a term gStack[k+1] inside the body would let trigger-based
+// instantiation walk up the stack for ever)
+func stackLinked(g *Graph) bool {
+	return vs.ForallInt2(func(k, k2 int) bool {
+		return vs.Implies(0 <= k && k2 == k+1 && k2 < len(gStack), followsEdge(g, k, gStack[k2]))
+	})
+}
+
+// stackOK: the nodes in progress are exactly the ghost stack, and consecutive stack nodes are joined by edges.
+func stackOK(g *Graph, colors map[*node]nodeColor) bool {
+	return stackNodesGray(colors) && grayOnStack(colors) && stackLinked(g)
+}
+
+// cycleWitness: the stack from position gCycleFrom to the top, closed by the edge examined at the top, is a cycle of
+// the graph (every step is an edge; a self loop is the one-node case).
+func cycleWitness(g *Graph) bool {
+	return 0 <= gCycleFrom && gCycleFrom < len(gStack) &&
+		vs.ForallInt2(func(k, k2 int) bool {
+			return vs.Implies(gCycleFrom <= k && k2 == k+1 && k2 < len(gStack), followsEdge(g, k, gStack[k2]))
+		}) &&
+		followsEdge(g, len(gStack)-1, gStack[gCycleFrom])
+}
+
+//kvc:contract (*Graph).dfsCycleDetection@stack
+func contract_Graph_dfsCycleDetection_stack(g *Graph, node *node, colors map[*node]nodeColor, parent map[*node]*node) (result []*node) {
+	vs.Requires(edgesWellFormed(g) && vs.IsAllocated(node) && colors != nil && parent != nil && colors[node] == white && colorDomain(colors))
+	vs.Requires(stackOK(g, colors) && (len(gStack) == 0 || followsEdge(g, len(gStack)-1, node)))
+	vs.Ensures("color_domain", colorDomain(colors))
+	vs.Ensures("finished", vs.Implies(len(result) == 0, colors[node] == black))
+	vs.Ensures("in_progress_unchanged", vs.Implies(len(result) == 0, vs.ForallPtr(func(x *nodeT) bool {
+		return vs.Implies(x != node, (colors[x] == gray) == (vs.Old(colors[x]) == gray))
+	})))
+	// a reported cycle is a cycle of the graph (witness: the DFS stack from the revisited node to the top)
+	vs.Ensures("reported_cycle_is_real", vs.Implies(len(result) > 0, cycleWitness(g)))
+	vs.Ensures("stack_restored", vs.Implies(len(result) == 0, len(gStack) == vs.Old(len(gStack)) && stackOK(g, colors) &&
+		vs.ForallInt(func(k int) bool {
+			return vs.Implies(0 <= k && k < len(gStack), gStack[k] == vs.Old(gStack)[k] && gVia[k] == vs.Old(gVia[k]))
+		})))
+	vs.Modifies(colors, parent, gStack, gDepthOf, gVia, gCycleFrom)
+	return
+}
+
+//kvc:loop (*Graph).dfsCycleDetection@stack "for _, edge := range g.edges[node]"
+func inv_dfsCycleDetection_stack(g *Graph, node *node, colors map[*node]nodeColor, kvcIdx int) {
+	vs.Invariant("self_in_progress", colors[node] == gray)
+	vs.Invariant("color_domain", colorDomain(colors))
+	vs.Invariant("in_progress_unchanged", vs.ForallPtr(func(x *nodeT) bool {
+		return vs.Implies(x != node, (colors[x] == gray) == (vs.Old(colors[x]) == gray))
+	}))
+	vs.Invariant("stack_top", len(gStack) == vs.Old(len(gStack))+1 && gStack[len(gStack)-1] == node)
+	vs.Invariant("stack_nodes_in_progress", stackNodesGray(colors))
+	vs.Invariant("in_progress_on_stack", grayOnStack(colors))
+	vs.Invariant("stack_follows_edges", stackLinked(g))
+	vs.Invariant("stack_below_unchanged", vs.ForallInt(func(k int) bool {
+		return vs.Implies(0 <= k && k < len(gStack)-1, gStack[k] == vs.Old(gStack)[k] && gVia[k] == vs.Old(gVia[k]))
+	}))
+}
+
+//kvc:contract (*Graph).detectCycles@stack
+func contract_Graph_detectCycles_stack(g *Graph) (result error) {
+	vs.Requires(edgesWellFormed(g) && graphNodesAllocated(g))
+	// C09 (acceptance direction): an error is reported only for a graph that really has a cycle
+	vs.Ensures("error_means_a_real_cycle", vs.Implies(result != nil, cycleWitness(g)))
+	vs.Modifies(gStack, gDepthOf, gVia, gCycleFrom)
+	vs.Allocates()
+	return
+}
+
+//kvc:ghost (*Graph).detectCycles@stack before "for _, n := range g.nodes { if colors[n] == white"
+func ghostEmptyStack() { gStack = gStack[:0] }
+
+//kvc:loop (*Graph).detectCycles@stack "for _, n := range g.nodes { colors[n] = white"
+func inv_detectCycles_init_stack(g *Graph, colors map[*node]nodeColor) {
+	vs.Invariant("graph_well_formed", edgesWellFormed(g) && graphNodesAllocated(g))
+	vs.Invariant("all_white", colors != nil && vs.ForallPtr(func(u *node) bool { return colors[u] == white }))
+}
+
+//kvc:loop (*Graph).detectCycles@stack "for _, n := range g.nodes { if colors[n] == white"
+func inv_detectCycles_main_stack(g *Graph, colors map[*node]nodeColor, parent map[*node]*node, kvcIdx int) {
+	vs.Invariant("maps", colors != nil && parent != nil)
+	vs.Invariant("graph_well_formed", edgesWellFormed(g) && graphNodesAllocated(g))
+	vs.Invariant("nothing_in_progress", vs.ForallPtr(func(u *node) bool { return colors[u] != gray }))
+	vs.Invariant("color_domain", colorDomain(colors))
+	vs.Invariant("stack_empty", len(gStack) == 0)
+}
